@@ -30,16 +30,21 @@ def run(ctx):
         "Redact() on an event already flagged redacted is a no-op in the library: whether an `unsigned` added since is "
         "stripped is not compared (neither C03 nor C04 speaks about it)",
         "a create event of a domainless room version reports no auth events whatever its auth_events lists",
+        "numbers that are not canonical integers (1.5, 1e3, 1E2, +-2^53, -0, 2.0, a fraction nested in an array) appear "
+        "only in the `num` family, as one content value: in room versions 6+ the specification has Build refuse the "
+        "proto-event (a refusal is accepted; an event handed out instead must satisfy every clause, i.e. re-parse on "
+        "all three paths with the same fields and ID); in room versions 1-5 the event must build and round-trip",
     ]
     ctx.exhaustive = True
     ops = ("7 operations, behaviours of length 3, 2 list/depth/unsigned variants" if ctx.tier == "quick" else
            "7 operations with behaviours of length 4 (2 variants) and all 9 operations with behaviours of length 2 (4 variants)")
     ctx.notes["rule"] = (
-        "every behaviour of EventIdentity.tla: 16 room versions x 12 event shapes (7 protected types, message, empty "
+        "every behaviour of EventIdentity.tla: 16 room versions x 12 event shapes (+2 m.room.create-typed non-create events in domainless versions; 7 protected types, message, empty "
         "content, custom state, member with restricted-join / third-party-invite content, member with kept keys only) x "
-        "prev/auth/depth/unsigned variants x (%s) and x 17 sibling fields after 0/1 operation; distinct = distinct "
-        "(family, ID format, redaction algorithm, domainless, type, operation sequence, redacted pattern, sibling field)" % ops)
-    fams = ["ops", "sib"] if ctx.tier == "quick" else ["ops", "ops2", "sib"]
+        "prev/auth/depth/unsigned variants x (%s) and x 17 sibling fields after 0/1 operation; family num: 16 room versions x %s shapes x 11 number classes in the content x behaviours of length %s; distinct = distinct "
+        "(family, ID format, redaction algorithm, domainless, type, operation sequence, redacted pattern, sibling field, "
+        "number class)" % ((ops,) + (("3", "2") if ctx.tier == "quick" else ("6", "3"))))
+    fams = ["ops", "num", "sib"] if ctx.tier == "quick" else ["ops", "ops2", "num", "sib"]
     ctx.notes["constants"] = ", ".join("EventIdentity_gen_%s_%s.cfg" % (f, ctx.tier) for f in fams)
     for fam in fams:
         r = ctx.tlc("EventIdentity_gen", "EventIdentity_gen_%s_%s.cfg" % (fam, ctx.tier), timeout=2400)
